@@ -2,7 +2,7 @@
 PROP = dict(
     bin="c06",
     run_targets=["Run/RunC06.vo", "Run/RunKM.vo"],
-    extra_bins=[dict(bin="c06km", cases=dict(quick=640, thorough=3200))],
+    extra_bins=[dict(bin="c06km", cases=dict(quick=640, thorough=2000))],
     prop_targets=["Properties/C06.vo"],
     cases=dict(quick=440, thorough=6000),
     level="proof",
@@ -12,7 +12,7 @@ PROP = dict(
          "weight families, random mixed meshes); 3/4 of the inputs of the OBB-based algorithms have a power-of-two point count "
          "(the exact_obb premise); 1/6 of the Rcb/Rib inputs (1/60 of the others) have 8192..20000 points, 2/3 of them with pairwise distinct first coordinates in random order, so that rayon splits Rcb's fold into 2 resp. 4 chunks (large outputs are sent to Coq as differences from the first run); all 12 outputs are "
          "compared in Coq (MultiJagged up to renaming); distinct = distinct case index; non-trivial = at least 4 elements. "
-         "K-MEANS MODEL CASES (second binary c06km, 640 / 3200 cases, the cases of c02km): KMeans 2D/3D, every case under pools "
+         "K-MEANS MODEL CASES (second binary c06km, 640 / 2000 cases, the cases of c02km): KMeans 2D/3D, every case under pools "
          "1,2,3,4,8,16 twice; on integer-valued inputs the twelve partitions must be identical (this clause) and, when the rotation "
          "matrix is validated and erode is off, equal to the partition of the binary64 model, whose checked run also evaluates the "
          "exactness premise of C06_kmeans_sched_indep (class 102 = no flag)",
